@@ -169,7 +169,7 @@ Section TreeR.
       rewrite Hins. f_equal. rewrite (get_inside_spec LinR G lik (s_geom LinR (sfrac e'))).
       apply map_ext_in. intros i Hi. apply in_seq in Hi.
       cbn [s_rsum LinR LinSpace]. rewrite lin_rsum_sumR. unfold M. cbn [msgR].
-      rewrite <- sumR_map_scale with (k := / Kof (Node e' u' cs')). unfold Rdiv.
+      unfold Rdiv. rewrite <- sumR_map_scale with (k := / Kof (Node e' u' cs')).
       apply sumR_map_ext. intros j Hj. apply in_seq in Hj.
       cbn [s_geom s_comb s_id s_null LinR LinSpace one mul zero RNum].
       rewrite (nth_map_seq (fun i0 => U (Node e' u' cs') i0 * / Kof (Node e' u' cs'))) by lia. cbn [Nat.add].
@@ -227,4 +227,68 @@ Section TreeR.
     cbn [inside_at Kof]. unfold denf. rewrite Hden. fold Kc. split; [now apply Rmult_lt_0_compat|].
     rewrite Hins. f_equal. rewrite Hval' at 1. unfold vratio. rewrite map_map. apply map_ext. intro i.
     cbn [s_ratio LinR LinSpace div RNum]. field. split; lra. Qed.
+
+  (** ** the returned marginal likelihood *)
+  Fixpoint inodes (t : tree) : list nat :=
+    match t with
+    | Leaf _ _ => []
+    | Node _ u cs => u :: flat_map inodes cs
+    end.
+
+  Lemma Kof_inodes : forall t, Kof t = prodR (map denf (inodes t)).
+  Proof. induction t as [e u|e u cs IH] using tree_ind'; cbn [Kof inodes map]; [reflexivity|].
+    unfold prodR at 2. cbn [fold_right]. fold (prodR (map denf (flat_map inodes cs))). f_equal.
+    induction cs as [|c r IHr]; cbn [map flat_map]; [reflexivity|]. inversion IH; subst.
+    rewrite map_app, prodR_app. unfold prodR at 1. cbn [fold_right]. fold (prodR (map Kof r)).
+    rewrite IHr by assumption. now rewrite H1. Qed.
+
+  Lemma marg_acc_prod : forall (l : list (nat * list edge)),
+    (forall g, In g l -> fixed (fst g) = false -> den (fst g) <> None) ->
+    forall m, marg_acc LinR fixed den m l
+              = m * prodR (map denf (filter (fun p => negb (fixed p)) (map fst l))).
+  Proof. induction l as [|[p es] r IH]; intros Hsome m; cbn [marg_acc map filter fst].
+    - unfold prodR. cbn. lra.
+    - destruct (fixed p) eqn:Hfx; cbn [negb].
+      + apply IH. intros g Hg. apply Hsome. now right.
+      + cbn [map]. unfold prodR. cbn [fold_right]. fold (prodR (map denf (filter (fun p0 => negb (fixed p0)) (map fst r)))).
+        unfold denf at 1. destruct (den p) as [d|] eqn:Hd.
+        * rewrite IH by (intros g Hg; apply Hsome; now right). cbn [s_comb LinR LinSpace mul RNum]. lra.
+        * exfalso. apply (Hsome (p, es)); [now left|exact Hfx|exact Hd]. Qed.
 End TreeR.
+
+(** ** [inside_pass] on a single tree: values and returned likelihood *)
+Theorem inside_pass_tree : forall (G : nat) lik sfrac fixed priorv es root e cs st m,
+  (forall e i j, 0 <= lik e i j) -> (forall u x, In x (priorv u) -> 0 <= x) -> (forall e, sfrac e = 1) ->
+  let gs := groupby e_parent es in
+  let t := Node e root cs in
+  inside_order fixed [] gs ->
+  inside_pass LinR G lik sfrac fixed priorv true es [(root, 1)] = Some (st, m) ->
+  tree_ok G fixed priorv gs t -> all_pos G lik priorv t ->
+  Permutation (inodes t) (filter (fun p => negb (fixed p)) (map fst gs)) ->
+  (* the inside values of the root are U / (product of all denominators) ... *)
+  0 < prodR (map (denf (i_den LinR st)) (inodes t)) /\
+  i_ins LinR st root = Some (map (fun i => U lik priorv t i / prodR (map (denf (i_den LinR st)) (inodes t))) (seq 0 G)) /\
+  (* ... and the returned marginal likelihood is the sum of U over the grid *)
+  m = sumR (map (U lik priorv t) (seq 0 G)).
+Proof. intros G lik sfrac fixed priorv es root e cs st m Hlik Hpr Hsf gs t Hord Hrun Hok Hpos Hperm.
+  unfold inside_pass in Hrun. fold gs in Hrun.
+  destruct (inside_groups LinR G lik sfrac fixed priorv true (istate0 LinR) gs) as [st0|] eqn:Hg; [|discriminate].
+  destruct (inside_groups_spec LinR G lik sfrac fixed priorv true gs [] _ _ Hord Hg) as (_ & Heqs & Hmarg).
+  pose proof (inside_tree G lik sfrac fixed priorv Hlik Hpr Hsf gs (i_ins LinR st0) (i_den LinR st0) Heqs t Hok Hpos) as Hin.
+  cbn [inside_at] in Hin. destruct Hin as (HK & Hins).
+  cbn [marg_roots] in Hrun. rewrite Hins in Hrun.
+  assert (Est : st = st0) by congruence.
+  assert (Em : m = s_comb LinR (i_marg LinR st0) (s_msum LinR (map (s_geom LinR 1)
+                     (map (fun i => U lik priorv t i / Kof (i_den LinR st0) t) (seq 0 G))))) by congruence.
+  clear Hrun. subst st m.
+  rewrite Kof_inodes in *. split; [exact HK|]. split; [exact Hins|].
+  rewrite Hmarg. cbn [i_marg istate0 s_id LinR LinSpace one RNum].
+  rewrite (marg_acc_prod fixed (i_den LinR st0) gs).
+  - rewrite <- (prodR_perm _ _ (Permutation_map (denf (i_den LinR st0)) Hperm)).
+    cbn [s_comb s_msum LinR LinSpace mul RNum]. rewrite lin_msum_sumR, map_map.
+    set (K := prodR (map (denf (i_den LinR st0)) (inodes t))) in *.
+    rewrite (sumR_map_ext _ (fun i => U lik priorv t i * / K)).
+    + rewrite sumR_map_scale. toR. field. lra.
+    + intros i _. cbn [s_geom LinR LinSpace]. rewrite Rpowf_1; [reflexivity|].
+      apply Rmult_le_pos; [now apply U_nonneg|]. left. apply Rinv_0_lt_compat. exact HK.
+  - intros g Hgin Hfx. destruct (Heqs g Hgin Hfx) as (val & _ & _ & Hd). rewrite Hd. discriminate. Qed.
